@@ -32,6 +32,15 @@ pub struct Case {
     pub steps: Vec<Step>,
     /// what happens to the held requests after shutdown: true = respond, false = drop
     pub respond_after_shutdown: bool,
+    /// bit i: source node i is a routing-table member (the service knows a record of it)
+    #[serde(default)]
+    pub known: u8,
+    /// bit i: the requests of source node i come from another socket than its record advertises
+    #[serde(default)]
+    pub moved: u8,
+    /// dual-stack service; known records then advertise an IPv4 and an IPv6 socket (requests arrive over IPv4)
+    #[serde(default)]
+    pub dual: bool,
 }
 
 pub struct C20;
@@ -47,7 +56,17 @@ enum Fate {
 
 async fn run(case: &Case, rep: &mut CaseReport) -> Option<(String, String)> {
     reset_globals();
-    let mut s = Svc::new(SvcConfig { key_idx: 0, register_events: case.register_events, ..Default::default() }).await;
+    let mut s = Svc::new(SvcConfig { key_idx: 0, register_events: case.register_events, mode: if case.dual { Mode::Dual } else { Mode::Ip4 }, ..Default::default() }).await;
+    for i in 0..4u8 {
+        if case.known & (1 << i) != 0 {
+            let k = 700 + i as u32;
+            let rec = shaped_record(k, 1, if case.dual { Shape::Both } else { Shape::V4 });
+            s.inject(HandlerOut::Established(rec, svc_addr4(k), discv5::verif::ConnectionDirection::Outgoing)).await;
+        }
+    }
+    s.take_outbox();
+    s.take_events();
+    let (known, moved) = (case.known, case.moved);
     let mut fates: HashMap<(NodeAddress, RequestId), Fate> = HashMap::new();
     let mut held: Vec<TalkRequest> = Vec::new();
     let mut answers: HashMap<(NodeAddress, RequestId), Vec<Vec<u8>>> = HashMap::new();
@@ -116,7 +135,12 @@ async fn run(case: &Case, rep: &mut CaseReport) -> Option<(String, String)> {
         let l = (idlen as usize).clamp(2, 8);
         let id = RequestId(be[8 - l..].to_vec());
         let k = 700 + (from % 4) as u32;
-        let addr = NodeAddress::new(svc_addr4(k), ids::node_id(&keys::id_of(k)));
+        let src = if moved & (1 << (from % 4)) != 0 {
+            std::net::SocketAddr::new(std::net::IpAddr::V4(std::net::Ipv4Addr::new(10, 77, 0, 1 + from % 4)), 6000 + (from % 4) as u16)
+        } else {
+            svc_addr4(k)
+        };
+        let addr = NodeAddress::new(src, ids::node_id(&keys::id_of(k)));
         let req = Request { id: id.clone(), body: RequestBody::Talk { protocol: b"p".to_vec(), request: payload } };
         let _ = s.h.to_service.try_send(HandlerOut::Request(addr.clone(), Box::new(req)));
         (addr, id)
@@ -231,6 +255,9 @@ async fn run(case: &Case, rep: &mut CaseReport) -> Option<(String, String)> {
         rep.class("released-after-shutdown");
     }
     rep.count("talk-requests", fates.len() as u64);
+    if fates.keys().any(|(a, _)| (0..4u8).any(|i| known & (1 << i) != 0 && a.node_id == ids::node_id(&keys::id_of(700 + i as u32)) && (case.dual || a.socket_addr != svc_addr4(700 + i as u32)))) {
+        rep.class("request-from-known-node-whose-record-suggests-another-socket");
+    }
     None
 }
 
@@ -238,7 +265,7 @@ impl Property for C20 {
     type Case = Case;
     const ID: &'static str = "C20";
     fn cases(tier: Tier) -> u64 {
-        tier.pick(4_000, 150_000)
+        tier.pick(20_000, 400_000)
     }
     fn strategy(_tier: Tier) -> BoxedStrategy<Case> {
         let payload = || proptest::collection::vec(any::<u8>(), 0..6);
@@ -250,8 +277,8 @@ impl Property for C20 {
             1 => any::<bool>().prop_map(Step::SetDraining),
             1 => (0u8..4, prop_oneof![Just(5u8), Just(110u8)]).prop_map(|(from, n)| Step::Burst { from, n }),
         ];
-        (prop_oneof![5 => Just(true), 1 => Just(false)], proptest::collection::vec(step, 1..20), any::<bool>())
-            .prop_map(|(register_events, steps, respond_after_shutdown)| Case { register_events, steps, respond_after_shutdown })
+        (prop_oneof![5 => Just(true), 1 => Just(false)], proptest::collection::vec(step, 1..20), any::<bool>(), 0u8..16, 0u8..16, prop_oneof![3 => Just(false), 1 => Just(true)])
+            .prop_map(|(register_events, steps, respond_after_shutdown, known, moved, dual)| Case { register_events, steps, respond_after_shutdown, known, moved, dual })
             .boxed()
     }
     fn run(case: &Case) -> CaseReport {
@@ -263,7 +290,7 @@ impl Property for C20 {
         rep
     }
     fn rule() -> String {
-        "a real Discv5 service with a scripted handler; scripts of 1..19 steps: TALKREQs (ids of 2..8 bytes, 4 source nodes) injected while an event stream is registered / not registered / not being read so that it fills up (bursts of 110), the application responding to, dropping, dropping on another thread, or holding the delivered request objects in any order; finally shutdown (service exit, handler end closed) followed by respond / drop of everything still held. After every step: a request that was responded to has exactly one TALKRESP with that payload to its source node address, a dropped or undeliverable one exactly one empty TALKRESP, a held one none, and no TALKRESP exists for anything else; after shutdown respond returns ChannelClosed and drop does not panic. Non-trivial = >=2 requests with different fates at the same time, or a release after shutdown.".into()
+        "a real Discv5 service with a scripted handler; scripts of 1..19 steps: TALKREQs (ids of 2..8 bytes, 4 source nodes) (each source node known to the service as a routing-table member or not; its requests coming from the socket its record advertises or from another one; IPv4 or dual-stack service with records advertising both families) injected while an event stream is registered / not registered / not being read so that it fills up (bursts of 110), the application responding to, dropping, dropping on another thread, or holding the delivered request objects in any order; finally shutdown (service exit, handler end closed) followed by respond / drop of everything still held. After every step: a request that was responded to has exactly one TALKRESP with that payload to its source node address, a dropped or undeliverable one exactly one empty TALKRESP, a held one none, and no TALKRESP exists for anything else; after shutdown respond returns ChannelClosed and drop does not panic. Non-trivial = >=2 requests with different fates at the same time, or a release after shutdown.".into()
     }
     fn assumptions() -> Vec<String> {
         vec!["request ids are unique per source within a script (the ledger is keyed by (node address, id))".into()]
